@@ -40,6 +40,22 @@ end XMem
 def mcreate (junk : Nat) (siz : Nat) : Option XMem :=
   (poke (List.replicate (if siz = 0 then AUNIT else siz) junk) 0 0).map fun m => { mem := m, size := 0 }
 
+/-- `iwxstr_wrap(buf, size, asize)`: the caller's buffer holds `b` in `asize` cells (at least `size`); it is
+reallocated to `size + 1` when there is no room for the terminator -/
+def mwrap (junk : Nat) (b : Bytes) (asize : Nat) : Option XMem :=
+  let buf := b ++ List.replicate (asize - b.length) junk
+  let mem := if b.length ≥ asize then realloc junk buf (b.length + 1) else buf
+  (poke mem b.length 0).map fun m => { mem := m, size := b.length }
+
+/-- `iwxstr_clone`: a new buffer of `asize` cells, the data copied, terminator stored (fixed code) -/
+def mclone (junk : Nat) (x : XMem) : Option XMem :=
+  (if x.size ≠ 0 then copyIn' (List.replicate x.mem.length junk) x.mem x.size else some (List.replicate x.mem.length junk)).bind fun m =>
+    (poke m x.size 0).map fun m' => { mem := m', size := x.size }
+where
+  /-- `memcpy(dst, src, n)` from offset 0 to offset 0 -/
+  copyIn' (dst src : Bytes) (n : Nat) : Option Bytes :=
+    if n ≤ src.length ∧ n ≤ dst.length then some (src.take n ++ dst.drop n) else none
+
 /-- `memcpy(mem + dst, src, n)`; `none` when the destination range leaves `mem` or more than `src` holds is read -/
 def copyIn (mem : Bytes) (dst : Nat) (src : Bytes) (n : Nat) : Option Bytes :=
   if n = 0 then some mem
